@@ -8,7 +8,7 @@ verify:  VerifyingKey::verify(M, sig) with symbolic key point A and signature by
 import time, re
 from vp import build
 from vp.lharness import module, Report
-from llsym import gsym
+from llsym import gsym, smt
 from llsym.ir import Unsupported
 from llsym.gsym import GSym, G
 from llsym.poly import Poly, ZERO, ONE
@@ -236,3 +236,133 @@ def sign_ph_harness(rep, paths):
         rec["status"] = "violation"; rec["why"] = "panic reached: " + str(e)[:200]
     rec["wall_s"] = round(time.time() - t0, 3)
     rep.add(**rec); rep.functions.add(rec["function"]); rep.configs.add("serial64")
+
+# ---- C08, second sentence: a signature produced by sign is accepted by verify / verify_strict (and the ph variants) under the same key
+class RSym(PSym):
+    """PSym + the facts that connect signing to verification: scalar-ring results are canonical (C02), Decode(Encode(P)) = P and Encode is
+    injective on group elements (C03), c*B has small order iff c = 0 mod l (B has prime order l: C12)"""
+    def __init__(self, mod, oracle=None):
+        super().__init__(mod, oracle); self.facts = []
+    def whole(self, p, cls):
+        cs = [self.regions[p.r].b.get(p.o + k) for k in range(32)]
+        if cs[0] is not None and isinstance(cs[0][0], cls) and all(c is not None and c[0] is cs[0][0] and c[1] == k for k, c in enumerate(cs)): return cs[0][0]
+        return None
+    def s_canon(self, it, a, name):
+        sv = self.whole(a[1], SVal)
+        if sv is None: return super().s_canon(it, a, name)
+        self.facts.append("S is a scalar-ring result: canonical")
+        for k in range(32): self.regions[a[0].r].b[a[0].o + k] = (sv, k, 32)
+        self.store(Ptr(a[0].r, a[0].o + 32), Poly.const(1), 1); return None
+    def p_decompress(self, it, a, name):
+        e = self.whole(a[1], Enc)
+        if e is None: return super().p_decompress(it, a, name)
+        self.facts.append("decompress(Enc(P)) = Some(P)")
+        self.store(Ptr(a[0].r, a[0].o), Poly.const(1), 8); self.put(Ptr(a[0].r, a[0].o + 8), e.g, 4 * self.fs); return None
+    def p_small(self, it, a, name):
+        g = self.get(a[0])
+        if set(g.c) <= {"B"}:
+            c = self.ctx.resolve(g.c.get("B", ZERO))
+            v = self.oracle.decide(("zero", repr(c)), "coefficient of B is 0 mod l: %s" % (repr(c)[:60],))
+            self.small_q = getattr(self, "small_q", []) + [(c, v)]
+            return Poly.const(1 if v else 0)
+        return super().p_small(it, a, name)
+    def c_eq(self, it, a, name):
+        x = self.whole(a[0], Enc); y = self.whole(a[1], Enc)
+        if x is None or y is None: return super().c_eq(it, a, name)
+        d = x.g - y.g
+        self.compares.append((x, y, a[0], a[1]))
+        if d.is_zero():
+            self.facts.append("the two encodings are of the same group element"); return Poly.const(1)
+        # equal iff the difference (a multiple of B) vanishes mod l
+        v = self.oracle.decide(("diff0", repr(d)), "difference of the encoded elements is the identity: %s" % (repr(d)[:80],))
+        self.diffs = getattr(self, "diffs", []) + [(d, v)]
+        return Poly.const(1 if v else 0)
+
+def roundtrip_harness(rep, paths, strict, ph, other=None):
+    """other in (None, 'msg', 'ctx'): verify under the same / another message / another context"""
+    t0 = time.time()
+    nm = ("sign_prehashed -> verify_prehashed" if ph else "sign -> verify") + ("_strict" if strict else "") + ("" if not other else " with another " + other)
+    rec = dict(harness="serial64/" + nm, config="serial64", function="SigningKey::sign + VerifyingKey::verify*", goals=[], paths=0,
+               bounds="all seeds, all SHA-512 outputs (symbols, equal inputs give equal outputs); 3-byte public messages, 2-byte public contexts; every outcome of the residual decisions",
+               assumptions=["SHA-512 uninterpreted: H is a function (same input, same output); different inputs give unrelated symbols", "scalar-ring results are canonical (C02)", "Decode(Encode(P)) = P, Encode injective on group elements (C03)", "c*B has small order iff c = 0 mod l (C12: B has order l)"])
+    status = "ok"; why = ""
+    def goal(g, ok, kind="structural", **kw):
+        nonlocal status, why
+        rec["goals"].append(dict(dict(goal=g, verdict="unsat" if ok else "sat", solver_s=0.0, cases=1, solver_calls=0, kind=kind, nontrivial=True), **kw))
+        if not ok and status == "ok": status = "violation"; why = g
+    try:
+        mod = linked(paths); decisions = []; npaths = 0
+        while True:
+            npaths += 1
+            orc = Oracle(decisions); it = RSym(mod, orc)
+            seed = it.new_region("seed", 32); sb = [it.ctx.input("seed%d" % k, 0, 255) for k in range(32)]
+            for k in range(32): it.store(Ptr(seed.r, k), sb[k], 1)
+            def buf(name, bs):
+                r_ = it.new_region(name, len(bs))
+                for k, c in enumerate(bs): it.store(Ptr(r_.r, k), Poly.const(c), 1)
+                return r_
+            M = (0x61, 0x62, 0x63); M2 = (0x61, 0x62, 0x64) if other == "msg" else M
+            C2 = (0x63, 0x79) if other == "ctx" else tuple(CTX)
+            if ph:
+                r = it.P(it.call(_fn(mod, r"2rt25vp_ed_sign_then_verify_ph17h"), [seed, buf("m", M), Poly.const(3), buf("c", CTX), Poly.const(2), buf("vm", M2), Poly.const(3), buf("vc", C2), Poly.const(2), Poly.const(1 if strict else 0)]))
+            else:
+                r = it.P(it.call(_fn(mod, r"2rt22vp_ed_sign_then_verify17h"), [seed, buf("m", M), Poly.const(3), buf("vm", M2), Poly.const(3), Poly.const(1 if strict else 0)]))
+            got = bool(r.cval() & 1); tr = orc.trace
+            pd = "path %d [%s]" % (npaths, ", ".join("%s=%d" % (d[:60], v) for d, v in tr))
+            if tr and any(not d.startswith(("coefficient of B", "difference of")) for d, v in tr):
+                goal("%s: no decode / canonicity decision is left open between sign and verify" % pd, False)
+            # the decisions that remain are "c = 0 mod l" questions; decide what can be decided
+            H = it.hash_inputs; hb = it.hbytes
+            a = it.ctx.resolve(clamp_poly(it, hb[0]))
+            feasible = True; notes = []
+            for c, v in getattr(it, "small_q", []):
+                if (c - a).is_zero():
+                    # a = clamp(..) in [2^254, 2^255), multiple of 8: never 0 mod l  (solver)
+                    kq = it.ctx.input("kq", 0, 8)
+                    pr = smt.Problem(it.ctx)
+                    vv, model, dt, info = pr.check(Cond("cmp", "eq", a, kq.scale(L)), timeout_s=60, split=False)
+                    goal("%s: the clamped secret scalar a is never 0 mod l (so A = a*B never has small order)" % pd, vv == "unsat", kind="QF_LIA", solver_s=round(dt, 3), solver_calls=1)
+                    if v: feasible = False
+                else:
+                    notes.append("r = 0 mod l" if v else "r != 0 mod l")
+            for d, v in getattr(it, "diffs", []):
+                notes.append("difference %s %s" % (repr(d)[:70], "= O" if v else "!= O"))
+            rec["paths"] = npaths
+            if feasible:
+                r_zero = any(v for c, v in getattr(it, "small_q", []) if not (c - a).is_zero())
+                if strict and r_zero:
+                    goal("%s: rejected before any comparison (R = r*B is the identity: the documented strict rule; arises only if H(prefix||M) = 0 mod l)" % pd, not got and not it.compares)
+                elif other is None:
+                    want = True
+                    goal("%s: accepted" % pd, got == want)
+                    goal("%s: the recomputed element s*B - k*A is identically r*B (k*a + r - k*a = r), no residual comparison" % pd, not getattr(it, "diffs", []) and len(it.compares) == 1, kind="polynomial identity")
+                else:
+                    # acceptance needs the comparison to succeed although k' is an unrelated symbol
+                    dif = getattr(it, "diffs", [])
+                    ok_shape = len(dif) == 1 and set(dif[0][0].c) <= {"B"}
+                    goal("%s: with another %s the challenge is a different hash value k'; the compared elements differ by (k - k')*a*B" % (pd, other), ok_shape, kind="polynomial identity")
+                    if ok_shape:
+                        cB = it.ctx.resolve(dif[0][0].c.get("B", ZERO))
+                        ws = sorted(v_ for v_ in cB.vars() if v_.startswith("w"))
+                        goal("%s: (k - k')*a with two distinct hash symbols %s" % (pd, ws), len(ws) == 2 and not cB.is_zero(), kind="polynomial identity")
+                        goal("%s: returns Ok exactly if that difference vanishes (k = k' mod l, a hash collision) %s" % (pd, ""), got == bool(dif[0][1]))
+            nd = orc.next_decisions()
+            if nd is None or status != "ok" or npaths > 32: break
+            decisions = nd
+        rec["status"] = status
+        if why: rec["why"] = why
+    except Unsupported as e:
+        rec["status"] = "inconclusive"; rec["why"] = "unsupported IR: " + str(e)[:400]
+    except PanicReached as e:
+        rec["status"] = "violation"; rec["why"] = "panic reached: " + str(e)[:200]
+    rec["wall_s"] = round(time.time() - t0, 3)
+    rep.add(**rec); rep.functions.add(rec["function"]); rep.configs.add("serial64")
+
+def roundtrip_harnesses(rep, tier):
+    p = _paths(); T = []
+    for ph in (False, True):
+        for strict in (False, True):
+            T.append(lambda ph=ph, strict=strict: roundtrip_harness(rep, p, strict, ph))
+        T.append(lambda ph=ph: roundtrip_harness(rep, p, False, ph, "msg"))
+    T.append(lambda: roundtrip_harness(rep, p, True, True, "ctx"))
+    return T
